@@ -51,7 +51,9 @@ NoOpt == -1     \* -d / -D not given
 (*   file  == [src   : "file" | "dash" (the argument "-") | "implicit"     *)
 (*                     (no file argument at all: stdin) | "missing"        *)
 (*                     (names a file that does not exist),                 *)
-(*             items : Seq(item)]                                          *)
+(*             items : Seq(item),                                          *)
+(*             eol   : the last line ends in a newline (text detail, no    *)
+(*                     influence on the machine)]                          *)
 (*   item  == [t    : "c" (coordinate lines) | "blank" | "ws" (white space *)
 (*                    only) | "comment" | "icomment" (indented comment),   *)
 (*             rep  : "one" | "fill",                                      *)
